@@ -491,7 +491,13 @@ class SetBinding:
 
 # ------------------------------------------------------------------------------------------ map binding
 
-MAP_MUTATORS = {"new", "setitem", "delitem", "popitem"}
+MAP_MUTATORS = {"new", "setitem", "delitem", "popitem",
+                "copy", "c_setitem", "c_delitem", "c_popitem", "src_setitem", "src_delitem"}
+
+
+def _base(name):
+    """c_getitem / src_setitem -> getitem / setitem: the same operation, addressed to the copy / the source."""
+    return name[2:] if name.startswith("c_") else name[4:] if name.startswith("src_") else name
 _SENT = object()
 
 
@@ -511,19 +517,28 @@ class MapBinding:
         self.fresh()
 
     def state(self):
-        return (self.obj, self.cur, self.rep)
+        return (self.obj, self.cur, self.rep, self.cobj, self.crep, self.chow)
 
     def load(self, st):
-        self.obj, self.cur, self.rep = st
+        self.obj, self.cur, self.rep, self.cobj, self.crep, self.chow = st
 
     def fork(self, st):
-        return (clone(st[0]), st[1], dict(st[2]))
+        o, c = clone_pair(st[0], st[3])
+        return (o, st[1], dict(st[2]), c, dict(st[4]), st[5])
+
+    def copy_is_pickle_keyed(self):
+        """The copy is a plain OrderedMap made from a serialized-key map: it identifies keys by pickle, so only the
+        Python value it stores denotes the key ([1, 2] and (1, 2) are different keys for it)."""
+        return self.serialized and self.chow == "ctor"
 
     def forms_for(self, act):
         name = act["name"]
         if name == "new":
             return ["a", "b"]
-        if self.multirep and name in ("setitem", "delitem", "getitem", "get", "contains"):
+        if name.startswith("c_") and self.copy_is_pickle_keyed():
+            return ["a"]
+        if self.multirep and _base(name) in ("setitem", "delitem", "getitem", "get", "contains") \
+                and not name.startswith("src_"):
             return ["a", "b"]                           # both Python values that denote the key
         return ["a"]
 
@@ -533,6 +548,7 @@ class MapBinding:
     def fresh(self):
         self.cur = []
         self.rep = {}                                  # model key -> representation last written
+        self.cobj, self.crep, self.chow = None, {}, None   # the copy (MCopy), its representations, how it was made
         try:
             self.obj = self._empty()
         except Exception as ex:
@@ -553,28 +569,44 @@ class MapBinding:
             m._insert(kk, vv)
         return m
 
-    def project(self):
+    def _project_one(self, m, rep, other_rep):
         inst = self.inst
+        items = [[inst.ak(k), inst.av(v)] for k, v in m.items()]
+        look = []
+        for k in range(1, self.n + 1):
+            # look up through the *other* representation (unless only the stored one denotes the key)
+            kk = inst.k(k, rep.get(k, 0) + (1 if other_rep else 0))
+            got = m.get(kk, _SENT)
+            look.append([kk in m, NONE if got is _SENT else inst.av(got)])
+        return items, len(m), look
+
+    def project(self):
         try:
-            m = self.obj
-            items = [[inst.ak(k), inst.av(v)] for k, v in m.items()]
-            look = []
-            for k in range(1, self.n + 1):
-                kk = inst.k(k, self.rep.get(k, 0) + 1)           # look up through the *other* representation
-                got = m.get(kk, _SENT)
-                look.append([kk in m, NONE if got is _SENT else inst.av(got)])
-            return {"items": items, "len": len(m), "lookup": look}
+            items, n, look = self._project_one(self.obj, self.rep, True)
+            st = {"items": items, "len": n, "lookup": look}
+            if self.cobj is not None:
+                items, n, look = self._project_one(self.cobj, self.crep, not self.copy_is_pickle_keyed())
+                st.update({"copy_items": items, "copy_len": n, "copy_lookup": look,
+                           "copy_is_source": self.cobj is self.obj})
+            return st
         except Exception as ex:
             return {"exc": type(ex).__name__}
 
     def expected_state(self, node):
-        M = node["M"]
-        d = dict((k, v) for k, v in M)
-        return {"items": [[k, v] for k, v in M], "len": len(M),
-                "lookup": [[k in d, d.get(k, NONE)] for k in range(1, self.n + 1)]}
+        def one(M):
+            d = dict((k, v) for k, v in M)
+            return [[k, v] for k, v in M], len(M), [[k in d, d.get(k, NONE)] for k in range(1, self.n + 1)]
+        items, n, look = one(node["M"])
+        st = {"items": items, "len": n, "lookup": look}
+        C = node.get("C") or ()
+        if len(C):
+            items, n, look = one(C[0])
+            st.update({"copy_items": items, "copy_len": n, "copy_lookup": look, "copy_is_source": False})
+        return st
 
     def _norm(self, name, r):
         inst = self.inst
+        name = _base(name)
         if name in ("getitem",):
             return inst.av(r)
         if name == "get":
@@ -595,7 +627,7 @@ class MapBinding:
         return NONE if r is None else "not-None:" + repr(r)[:40]
 
     def _expect(self, act):
-        name, res = act["name"], act["res"]
+        name, res = _base(act["name"]), act["res"]
         if act["exc"]:
             return {"exc": act["exc"]}
         if name in ("keys", "values"):
@@ -611,8 +643,13 @@ class MapBinding:
         m = self.obj
         inst = self.inst
         self._operand_check = None
+        rep_for = self._rep_for
+        if name.startswith("c_"):                      # the same observers, addressed to the copy
+            name, m = name[2:], self.cobj
+            if self.copy_is_pickle_keyed():
+                rep_for = lambda k, step: self.crep.get(k, 0)
         if name in ("getitem", "get", "contains"):
-            kk = inst.k(arg, self._rep_for(arg, step))
+            kk = inst.k(arg, rep_for(arg, step))
             if name == "getitem":
                 return [("m[k]", lambda: m[kk])]
             if name == "get":
@@ -669,20 +706,39 @@ class MapBinding:
             for (k, v), r in zip(arg, reps):
                 self.rep[k] = r
             return None
+        if name == "copy":
+            self.crep = dict(self.rep)
+            self.chow = arg
+            if arg == "ctor":
+                self.cobj = repo_import("cassandra.util").OrderedMap(m)      # a plain OrderedMap, whatever m is
+            else:
+                c = self._empty()                                            # m's own class, item by item
+                for kk, vv in m.items():
+                    c[kk] = vv
+                self.cobj = c
+            return None
+        reps = self.rep
+        rep_for = self._rep_for
+        if name.startswith("c_"):                      # the same mutators, addressed to the copy
+            name, m, reps = name[2:], self.cobj, self.crep
+            if self.copy_is_pickle_keyed():
+                rep_for = lambda k, step: self.crep.get(k, 0)
+        elif name.startswith("src_"):
+            name = name[4:]
         if name == "setitem":
             k, v = arg
-            r = self._rep_for(k, step)
+            r = rep_for(k, step)
             m[inst.k(k, r)] = inst.v(v)
-            self.rep[k] = r
+            reps[k] = r
             return None
         if name == "delitem":
-            del m[inst.k(arg, self._rep_for(arg, step))]
-            self.rep.pop(arg, None)
+            del m[inst.k(arg, rep_for(arg, step))]
+            reps.pop(arg, None)
             return None
         if name == "popitem":
             r = m.popitem()
             try:
-                self.rep.pop(inst.ak(r[0]), None)
+                reps.pop(inst.ak(r[0]), None)
             except Exception:
                 pass
             return r
